@@ -117,7 +117,13 @@ func genArr(r *rng.R, id int) arrCase {
 		case x < 17:
 			t += itv // exactly one interval later
 		case x < 18:
-			t += itv + uint64(r.Range(0, int64(itv)*2)) // idle longer than the array
+			if r.Intn(3) == 0 {
+				// idle for a multiple of 2^32 (or 2^31) ms plus less than one interval: an expiry test
+				// that narrows the age to 32 bits would see a fresh bucket
+				t += uint64(r.PickI(1<<32, 1<<32, 2<<32, 1<<31, 3<<31)) + uint64(r.Range(0, int64(itv)))
+			} else {
+				t += itv + uint64(r.Range(0, int64(itv)*2)) // idle longer than the array
+			}
 		default:
 			t += uint64(r.Range(0, int64(itv)))
 		}
